@@ -105,7 +105,7 @@ Definition with_client {A} (pc : pcfg) (body : Z -> PM A) : PM A :=
 Definition inner_cfg (c : cfg) : cfg :=
   {| c_tcp := c_tcp c; c_naddr := c_naddr c; c_nodelay := c_nodelay c; c_tls := c_tls c; c_keepalive := c_keepalive c;
      c_ignore_exc := false; c_prefix := c_prefix c; c_default_noreply := c_default_noreply c; c_unicode := c_unicode c;
-     c_enc := c_enc c; c_serde := c_serde c; h_fetch := h_fetch c; h_store := h_store c; h_misc := h_misc c |}.
+     c_enc := c_enc c; c_serde := c_serde c; c_orc := c_orc c; h_fetch := h_fetch c; h_store := h_store c; h_misc := h_misc c |}.
 Definition miss_value (o : op) : option dyn :=
   match o with
   | OpGet _ d => Some d
